@@ -46,6 +46,22 @@ theorem istep_of {d d' : Diagram} {i j : Nat}
   refine List.any_eq_true.mpr ⟨j, List.mem_range.mpr hj, ?_⟩
   simp [h, hne]
 
+/-- Every consecutive pair is one legal interchange. -/
+def IChain : Diagram → List Diagram → Prop
+  | _, [] => True
+  | d, s :: ss => istep d s = true ∧ IChain s ss
+
+theorem IChain.stepChain {d : Diagram} {a : List Diagram} (h : IChain d a) : StepChain d a := by
+  induction a generalizing d with
+  | nil => trivial
+  | cons x xs ih => exact ⟨by rw [h.1]; rfl, ih h.2⟩
+
+theorem IChain.append {d : Diagram} {a b : List Diagram} (ha : IChain d a)
+    (hb : IChain (lastOr d a) b) : IChain d (a ++ b) := by
+  induction a generalizing d with
+  | nil => exact hb
+  | cons x xs ih => exact ⟨ha.1, ih ha.2 hb⟩
+
 /-! ### Index renumbering on ranges -/
 
 theorem map_bumpUp_range (a n l : Nat) (h : a + n ≤ l) :
@@ -95,7 +111,7 @@ theorem moveLeftUp (lo : List Nat) : ∀ {d : Diagram} {P M S : List (Box × Int
       d1.WF ∧ d1.dom = d.dom ∧ d1.cod = d.cod ∧
       d1.items = P1 ++ capI1 :: (M1 ++ cupI :: S) ∧ capI1.1 = capI.1 ∧
       classify (P1.length + 1) capI1.2 M1 = some (j', [], ro1) ∧
-      P1.length + M1.length = P.length + M.length ∧ StepChain d acc1 ∧ lastOr d acc1 = d1 := by
+      P1.length + M1.length = P.length + M.length ∧ IChain d acc1 ∧ lastOr d acc1 = d1 := by
   induction lo with
   | nil =>
     intro d P M S capI cupI ro acc t j' hd hit ht hcl
@@ -156,7 +172,7 @@ theorem moveLeftUp (lo : List Nat) : ∀ {d : Diagram} {P M S : List (Box × Int
       simp
     · rw [hl1]; simp only [List.length_append, List.length_cons, List.length_nil, List.length_map]
       omega
-    · rw [istep_of hd' (by omega) (by omega) (by omega)]; rfl
+    · exact istep_of hd' (by omega) (by omega) (by omega)
 
 /-! ### Left snake, second loop: right obstructions move down below the cup (lines 412-415) -/
 
@@ -168,7 +184,7 @@ theorem moveRightDown (n : Nat) : ∀ {d : Diagram} {P M S : List (Box × Int)}
       moveObstructions (fun _ r => r) (-1) (List.range' (P.length + 1) n).reverse d t [] acc
         = .ok (d2, (P.length : Int) + 1, ro', acc ++ acc2) ∧
       d2.WF ∧ d2.dom = d.dom ∧ d2.cod = d.cod ∧ d2.items = P ++ capI :: cupI :: S2 ∧
-      S2.length = S.length + n ∧ StepChain d acc2 ∧ lastOr d acc2 = d2 := by
+      S2.length = S.length + n ∧ IChain d acc2 ∧ lastOr d acc2 = d2 := by
   induction n with
   | zero =>
     intro d P M S capI cupI acc t hn hd hit _ ht
@@ -212,7 +228,7 @@ theorem moveRightDown (n : Nat) : ∀ {d : Diagram} {P M S : List (Box × Int)}
       rw [hmv]
       simp
     · rw [hS2]; simp only [List.length_cons]; omega
-    · rw [istep_of hd' (by omega) (by omega) (by omega)]; rfl
+    · exact istep_of hd' (by omega) (by omega) (by omega)
 
 /-! ### Right snake, first loop: left obstructions move down below the cup (lines 417-423) -/
 
@@ -227,7 +243,7 @@ theorem moveLeftDown (n : Nat) : ∀ {lo : List Nat} {d : Diagram} {P M S : List
       d1.WF ∧ d1.dom = d.dom ∧ d1.cod = d.cod ∧
       d1.items = P ++ capI :: (M1 ++ cupI1 :: S1) ∧ cupI1.1 = cupI.1 ∧
       classify (P.length + 1) j M1 = some (cupI1.2, [], ro1) ∧
-      M1.length + S1.length = M.length + S.length ∧ StepChain d acc1 ∧ lastOr d acc1 = d1 := by
+      M1.length + S1.length = M.length + S.length ∧ IChain d acc1 ∧ lastOr d acc1 = d1 := by
   induction n with
   | zero =>
     intro lo d P M S capI cupI ro acc t j hn hd hit ht _ hcl
@@ -292,8 +308,8 @@ theorem moveLeftDown (n : Nat) : ∀ {lo : List Nat} {d : Diagram} {P M S : List
       simp
     · rw [hl1]; simp only [List.length_append, List.length_cons, List.length_map]
       omega
-    · rw [istep_of hd' (by omega) (by rw [hlen]; simp only [List.length_append, List.length_cons]; omega)
-        (by simp only [List.length_append, List.length_cons]; omega)]; rfl
+    · exact istep_of hd' (by omega) (by rw [hlen]; simp only [List.length_append, List.length_cons]; omega)
+        (by simp only [List.length_append, List.length_cons]; omega)
 
 /-! ### Right snake, second loop: right obstructions move up above the cap (lines 424-427) -/
 
@@ -306,7 +322,7 @@ theorem moveRightUp (n : Nat) : ∀ {d : Diagram} {P M S : List (Box × Int)}
       moveObstructions (fun _ r => r) 1 (List.range' (P.length + 1) n) d t [] acc
         = .ok (d2, (P2.length : Int), ro', acc ++ acc2) ∧
       d2.WF ∧ d2.dom = d.dom ∧ d2.cod = d.cod ∧ d2.items = P2 ++ capI :: cupI :: S ∧
-      P2.length = P.length + n ∧ StepChain d acc2 ∧ lastOr d acc2 = d2 := by
+      P2.length = P.length + n ∧ IChain d acc2 ∧ lastOr d acc2 = d2 := by
   induction n with
   | zero =>
     intro d P M S capI cupI acc t hn hd hit _ ht
@@ -348,6 +364,6 @@ theorem moveRightUp (n : Nat) : ∀ {d : Diagram} {P M S : List (Box × Int)}
       rw [hmv]
       simp
     · rw [hP2]; simp only [List.length_append, List.length_cons, List.length_nil]; omega
-    · rw [istep_of hd' (by omega) (by omega) (by omega)]; rfl
+    · exact istep_of hd' (by omega) (by omega) (by omega)
 
 end DV
